@@ -237,9 +237,12 @@ func (c *checker) deleteRange(s *server, e *sim.Ev) {
 	}
 	if trunc {
 		c.cov("truncation")
-		s.truncSinceCreate = true
+		s.truncSinceCreate, s.truncT = true, e.T
 		// C04.3: truncation starts exactly at the first sent index whose stored term differs
 		for _, en := range ae.ents {
+			if en.I <= S {
+				continue // covered by the snapshot: the follower neither compares nor replaces what its log holds there
+			}
 			old, ok := d.logs[en.I]
 			if !ok {
 				break
@@ -268,7 +271,9 @@ func (c *checker) deleteRange(s *server, e *sim.Ev) {
 			} else {
 				c.violate("C11", "compaction-past-snapshot", e.Seq, "%s deleted [%d,%d] (log %d..%d) but its newest snapshot covers only %d", s.name, min, max, lo, hi, S)
 			}
-		} else if max >= lo && !s.truncSinceCreate {
+		} else if max >= lo && !(s.truncSinceCreate && s.truncT == e.T) {
+			// (a truncation in the very instant of the compaction is a race between the main loop and the
+			// snapshot routine about the log head; at any other time the head the compaction sees is current)
 			// routine compaction: leaves at least TrailingLogs entries when that many exist
 			have := hi - lo + 1
 			remain := uint64(0)
